@@ -621,7 +621,7 @@ REGISTRY = [
     Entry('normalize_array_shape_and_access', _each('normalize_array_shape_and_access'), group='array_indexing'),
     Entry('flatten_arrays', _flatten, {'normalize': B, 'order': ['F', 'C'], 'start': [1, 0]}, group='array_indexing'),
     Entry('LowerConstantArrayIndices', _lower_const, {'recurse': B, 'ext': B}, pre=_has('lower_const'),
-          group='array_indexing'),
+          gate=lambda wc, o: wc.rk == 'jprb' or (wc.marks.get('local_kind') and not o['ext']), group='array_indexing'),
     Entry('demote_variables', _demote, {'v': ['zv', 'zv+w2']}, group='array_indexing'),
     Entry('promote_variables', _promote, {'pos': [0, -1], 'index': B, 'size': B},
           pre=lambda wc, o: o['index'] and o['size'], group='array_indexing'),
@@ -950,7 +950,8 @@ SCHED_REGISTRY = [
     SEntry('sched:TransformLoopsTransformation', _s_loops),
     SEntry('sched:LowerConstantArrayIndices', _s_lowerconst, {'ext': B},
            pre=lambda wc, o: False),   # needs calls with constant subscripts only (crashes otherwise): in-process entry
-    SEntry('sched:ParametriseTransformation', _s_parametrise, {'by_value': B}),
+    SEntry('sched:ParametriseTransformation', _s_parametrise, {'by_value': B},
+           gate=lambda wc, o: o['by_value'] and wc.marks.get('local_kind')),
     SEntry('sched:pipeline', _s_combo, {'internals': B, 'derived': B},
            pre=lambda wc, o: wc.rk == 'jprb' and not wc.marks.get('has_t1') and not o['derived'] and _no_functions(wc),
            keep_originals=True, project={'with_free': True}),
